@@ -45,7 +45,7 @@ ASSUMPTIONS = [
 ]
 REQUIRED_MONITORS = ["crashes_delivered", "resumes_completed", "h5_files_compared", "xyz_files_compared",
                      "checkpoints_loaded_after_crash", "logical_crash_points", "exception_crashes",
-                     "sequence_scenarios", "syscall_kills", "random_sigkills"]
+                     "sequence_scenarios", "syscall_kills", "random_sigkills", "publication_window_points"]
 CASE_TIMEOUT = 1500.0
 # budgets are sized for 16 workers; with fewer workers (VERIF_NCPU) the same work needs proportionally longer
 _SCALE = max(1.0, 16.0 / max(1, env.NCPU)) * float(os.environ.get("VERIF_BUDGET_SCALE", "1"))   # >1 on a loaded machine
@@ -102,14 +102,24 @@ CONFIGS = {
     "radical-OH": _c("bomd", ["OH."], 6, 2, uhf=True),
     "coprime-vectors": _c("bomd", ["H2O"], 12, 4, COPRIME),
     # options of Molecular_Dynamics_Basic.run (velocity rescaling thermostat / energy-shift control)
+    # periodic COM removal with a thermostat (NVE conserves momentum, so only a thermostatted engine shows the phase of
+    # the stride), stride > 1, checkpoint cadence coprime to the stride
+    "langevin-com-linear4": _c("langevin", ["H2O"], 9, 3, remove_com=["linear", 4]),
+    "langevin-com-angular3": _c("langevin", ["H2O", "H2"], 8, 2, MIXED, remove_com=["angular", 3]),
+    "xl-damped-com-linear4": _c("xl_damped", ["H2O"], 9, 3, k=3, remove_com=["linear", 4]),
+    "xl-damped-com-angular3": _c("xl_damped", ["H2O"], 8, 2, k=3, remove_com=["angular", 3]),
+    # damped (Langevin-thermostatted) extended-Lagrangian engines at 300 K: the thermostat visibly acts on every step
+    "xl-damped-k3": _c("xl_damped", ["H2O"], 8, 3, k=3, damp=8.0),
+    "ksa-damped": _c("ksa_damped", ["H2O"], 8, 3, k=4, damp=8.0),
     "bomd-scalevel": _c("bomd", ["H2O"], 6, 2, scale_vel=[2, 500.0]),
     "bomd-eshift": _c("bomd", ["H2O"], 6, 2, control_energy_shift=True),
 }
 
 LOGICAL_ALL = ["step", "h5.append_data", "h5.append_vectors", "h5.append_nonadiabatic", "h5.flush", "h5file.flush",
                "h5.close", "xyz.write", "xyz.flush", "xyz.close", "flush_all", "save_checkpoint", "atomic_save",
-               "torch.save", "os.replace"]
-CKPT_TARGETS = ["step", "flush_all", "h5.flush", "xyz.flush", "save_checkpoint", "torch.save", "os.replace"]
+               "torch.save", "os.replace", "os.rename", "os.remove", "os.unlink", "shutil.move"]
+CKPT_TARGETS = ["step", "flush_all", "h5.flush", "xyz.flush", "save_checkpoint", "torch.save", "os.replace",
+                "os.rename", "os.remove", "os.unlink", "shutil.move"]
 
 
 # ---------------------------------------------------------------------------------------
@@ -137,6 +147,10 @@ def gen_cases(tier, seed):
         add("langevin", {"kind": "syscall", "points": [["rename", 0.0]]}, 100)
         add("bomd-batch-mixed", {"kind": "exception", "targets": ["xyz.write"], "phases": ["after"], "mod": [0, 2]}, 100)
         add("ion-batch", {"kind": "logical", "targets": ["os.replace"], "phases": ["after"], "mod": [0, 2]}, 100)
+        # named cell, always complete: the checkpoint-publication window of the 2nd checkpoint (kill before / after
+        # every torch.save / os.replace / os.rename / os.remove / os.unlink / shutil.move made while it is written)
+        add("bomd-all1", {"kind": "publication", "checkpoint": 2}, 100)
+        add("langevin", {"kind": "publication", "checkpoint": 2}, 100)
 
         def sample(name, targets, m, take, rotate=True, **kw):
             r0 = int(g.integers(0, m)) if rotate else 0
@@ -144,8 +158,8 @@ def gen_cases(tier, seed):
                 r = (r0 + j * (m // take)) % m
                 add(name, {"kind": "logical", "targets": targets, "phases": list(kw.get("phases", ("before", "after"))),
                            "mod": [r, m]}, kw.get("w", 1.0))
-        sample("bomd-batch-mixed", LOGICAL_ALL, 12, 4)               # ~33 of the ~100 points, residues rotate with the seed
-        sample("langevin", CKPT_TARGETS, 7, 3)                        # ~28 of the 66 points of the checkpoint path
+        sample("bomd-batch-mixed", LOGICAL_ALL, 12, 3)               # ~25 of the ~100 points, residues rotate with the seed
+        sample("langevin", CKPT_TARGETS, 7, 2)                        # ~19 of the 66 points of the checkpoint path
         # fixed residues below: these configurations are the deterministic witnesses of the DESIGN section 7 rows
         sample("xl-k3", ["step", "os.replace"], 3, 1, rotate=False, phases=("after",))   # resumes at all 4 buffer phases
         sample("ksa", ["step"], 2, 1, rotate=False, phases=("after",))
@@ -155,6 +169,11 @@ def gen_cases(tier, seed):
         sample("fssh", ["step"], 2, 1, rotate=False, phases=("after",), w=3)
         sample("ion-OH-", ["save_checkpoint"], 1, 1, rotate=False, phases=("after",))
         sample("bomd-scalevel", ["save_checkpoint"], 2, 1, rotate=False, phases=("after",))
+        # thermostatted engines whose resume must restore the thermostat / the phase of the COM-removal stride
+        sample("langevin-com-linear4", ["os.replace"], 1, 1, rotate=False, phases=("after",))      # resume from 3, 6, 9
+        sample("xl-damped-com-angular3", ["os.replace"], 2, 1, rotate=False, phases=("after",))    # resume from 2, 6
+        sample("xl-damped-k3", ["save_checkpoint"], 1, 1, rotate=False, phases=("after",))         # resume from 3, 6
+        sample("ksa-damped", ["save_checkpoint"], 1, 1, rotate=False, phases=("after",))
         add("bomd-eshift", {"kind": "logical", "targets": ["os.replace"], "phases": ["before"], "mod": [1, 2]})
         add("bomd-batch-mixed", {"kind": "exception", "targets": ["step", "h5.append_data", "save_checkpoint"],
                                  "phases": ["after"], "mod": [int(g.integers(0, 3)), 3]})
@@ -174,10 +193,15 @@ def gen_cases(tier, seed):
             logical(name, LOGICAL_ALL, 14 if not heavy else 20, w=3 if heavy else 1)
         for name in ("bomd-removecom", "bomd-ckpt1", "bomd-ckpt5", "langevin-noreuse", "xl-k3", "xl-k5-ckpt1",
                      "xl-k9-ckpt1", "xl-damped", "ksa", "cis-bomd-ckpt1", "fssh-ckpt1", "fssh-damped", "ion-H3O+",
-                     "radical-OH", "coprime-vectors", "bomd-scalevel", "bomd-eshift"):
+                     "radical-OH", "coprime-vectors", "bomd-scalevel", "bomd-eshift", "langevin-com-linear4",
+                     "langevin-com-angular3", "xl-damped-com-linear4", "xl-damped-com-angular3", "xl-damped-k3",
+                     "ksa-damped"):
             logical(name, CKPT_TARGETS, 6, w=2 if name.startswith(("fssh", "cis")) else 1)
         for name in ("bomd-batch-mixed", "langevin", "xl-k5", "cis-bomd"):
             logical(name, LOGICAL_ALL, 8, mode="raise")
+        for name in ("bomd-all1", "bomd-batch-mixed", "langevin", "xl-k5", "ksa-ckpt3", "cis-bomd", "fssh", "ion-batch"):
+            for ck in (2, 3):
+                add(name, {"kind": "publication", "checkpoint": ck}, 3 if name.startswith(("fssh", "cis")) else 1)
         for name in ("bomd-batch-mixed", "bomd-noreuse", "langevin", "langevin-batch-mixed", "xl-k3-ckpt3", "xl-k9",
                      "ksa-ckpt3", "cis-xl"):
             for _ in range(3):
@@ -316,6 +340,11 @@ def judge(case, cfg, ref, d, hist, mon, margins):
         ck = h.get("ckpt_after")
         if ck is None:
             continue
+        published = h["action"] == "resume" or any(e.get("t") == "save_checkpoint" and e.get("ph") == "after"
+                                                   for e in h["events"])
+        if published and not ck.get("exists"):
+            # once the first checkpoint has been published, a loadable file with the final name exists at every instant
+            v("checkpoint-missing-after-publication", {"inspect": ck, "files": sorted(mdio.run_files(cfg))}, mech=None)
         if ck.get("exists"):
             last_ckpt = ck
             mon["checkpoints_loaded_after_crash"] += 1
@@ -395,7 +424,8 @@ def judge(case, cfg, ref, d, hist, mon, margins):
             dx = float(np.abs(f["xyz"] - r["xyz"]).max()) if f["xyz"].shape == r["xyz"].shape else float("inf")
             de = abs(f["E"] - r["E"])
             # printed with 5 / 9 decimals: a 1e-9 difference can at most flip the last printed digit
-            if dx > 1.5e-5 or de > 1.5e-9:
+            # NaN policy: a frame is printed text; a non-finite coordinate or energy in it always violates
+            if mdio.exceeds(dx, 1.5e-5) or mdio.exceeds(de, 1.5e-9):
                 vp.append({"label": f["label"], "dx": dx, "dE": de})
             else:
                 margins["xyz_frame_vs_uninterrupted"] = max(margins.get("xyz_frame_vs_uninterrupted", 0.0),
@@ -607,6 +637,25 @@ def run_case(case):
                                       [{"crash": {"target": t, "n": n, "phase": ph, "mode": mode},
                                         "desc": "%s %s %s #%d" % (mode, ph, t, n)}]))
             obs["enumeration"] = {"points_total": len(pts), "residue": plan["mod"], "targets": plan["targets"]}
+        elif kind == "publication":
+            # every file operation made while the n-th checkpoint is being written, from the reference run's event log
+            nck = int(plan.get("checkpoint", 2))
+            inside, pts = False, []
+            for e in rev:
+                if e.get("ev") != "call":
+                    continue
+                if e.get("t") == "save_checkpoint" and e.get("n") == nck:
+                    inside = e.get("ph") == "before"
+                elif inside and e.get("ph") == "before" and e.get("t") in mdio.PUBLICATION_TARGETS:
+                    pts.append((e["t"], int(e["n"])))
+            if not pts:
+                return {"inconclusive": "reference run wrote no checkpoint number %d" % nck, "monitors": mon}
+            obs["enumeration"] = {"window": "save_checkpoint #%d" % nck, "calls": ["%s#%d" % p for p in pts]}
+            for t, n in pts:
+                for ph in ("before", "after"):
+                    scenarios.append(("publication:%s#%d/%s" % (t, n, ph),
+                                      [{"crash": {"target": t, "n": n, "phase": ph, "mode": "exit"},
+                                        "desc": "exit %s %s #%d (while checkpoint #%d is written)" % (ph, t, n, nck)}]))
         elif kind == "sequence":
             for s in plan["seeds"]:
                 g = np.random.default_rng(s)
@@ -692,8 +741,9 @@ def run_case(case):
             mon["scenarios_judged"] += 1
             nontrivial = True
             mon[{"logical": "logical_crash_points", "exception": "exception_crashes", "sequence": "sequence_scenarios",
-                 "syscall": "syscall_kills", "sigkill": "random_sigkills"}[kind]] += 1
-            if kind in ("logical", "exception"):
+                 "syscall": "syscall_kills", "sigkill": "random_sigkills",
+                 "publication": "publication_window_points"}[kind]] += 1
+            if kind in ("logical", "exception", "publication"):
                 t = specs[0]["crash"]
                 cells.append("%s/%s/%s/%s" % (case["config"], kind, t["target"], t["phase"]))
             else:
